@@ -7,6 +7,7 @@ package cli
 import (
 	"flag"
 	"fmt"
+	"slices"
 	"strings"
 
 	"github.com/roddhjav/apparmor.d/pkg/logging"
@@ -78,7 +79,16 @@ func Configure() {
 	}
 
 	if full && paths.New("apparmor.d/groups/_full").Exist() {
+		// The full system policy profiles are installed before the flags manifests
+		// are applied, as the manifests set flags for them too
 		prepare.Register("fsp")
+		last := len(prepare.Prepares) - 1
+		for idx, task := range prepare.Prepares {
+			if task.Name() == "setflags" {
+				prepare.Prepares = slices.Insert(prepare.Prepares[:last], idx, prepare.Prepares[last])
+				break
+			}
+		}
 		builder.Register("fsp")
 	} else if prebuild.SystemdDir.Exist() {
 		prepare.Register("systemd-early")
